@@ -12,7 +12,7 @@ ASSUMPTIONS = ["numpy on one row is the reference, incl. numpy's identity for an
                "values only (the statement does not fix the result dtype); means within 2 ulp of the result dtype",
                "float values are dyadic, so sums and products are exact whatever the summation order; no NaN"]
 REQUIRED_FEATURES = ["empty_row_first", "empty_row_last", "consecutive_empty_rows", "all_rows_empty", "zero_rows",
-                     "keepdims", "axis_none", "ufunc_reduce", "undefined_reference", "arg_reduction"]
+                     "keepdims", "axis_none", "ufunc_reduce", "undefined_reference", "arg_reduction", "float_inf_pattern"]
 BOUNDS = {"quick": "LV(4,3) x 9 dtypes x 2 patterns x {sum,prod,any,all,max,min,mean,argmax,argmin} x {method axis=-1, np.f axis=-1, "
                    "axis=1, keepdims, axis=None} + ufunc.reduce for add, multiply, logical_and/or/xor, bitwise_and/or/xor, maximum, minimum",
           "thorough": "LV(5,3) u LV(3,5), 3 patterns"}
@@ -40,6 +40,12 @@ def cases(shard, tier):
             for u in UFUNCS:
                 yield [lens, dt, k, u, "reduce"]
                 yield [lens, dt, k, u, "reduce_keepdims"]
+        if dt in ("float32", "float64"):
+            # +-inf (exact and order-independent inside a row): a row's result must not depend on the rows before it
+            for op in ("sum", "prod", "max", "min", "mean", "any"):
+                for form in ("method", "keepdims", "none"):
+                    yield [lens, dt, "inf", op, form]
+            yield [lens, dt, "inf", "add", "reduce"]
 
 
 def _close(a, b, dts):
@@ -69,7 +75,11 @@ def check(case, acc):
             acc.feature("consecutive_empty_rows")
         if size == 0:
             acc.feature("all_rows_empty")
-    flat = dsl.pattern(dt, size, k)
+    if k == "inf":
+        acc.feature("float_inf_pattern")
+        flat = np.array(([1.5, float("inf"), 0.25, -2.0, 4.0, float("-inf"), 0.5, 3.0] * 3)[:size], dtype=dt)
+    else:
+        flat = dsl.pattern(dt, size, k)
     if op == "mean" and dt in ("int64", "uint64"):
         # the mean is computed in float64: keep |values| < 2**53 so the reference itself is exact
         flat = (flat.astype(np.float64) % 1000).astype(flat.dtype)
